@@ -592,9 +592,28 @@ func init() {
 			loops := r.fieldLoops(tg.Decl.Body)
 			okBracket := false
 			if len(loops) == 1 {
-				if fs, ok := loops[0].(*ast.ForStmt); ok && fs.Cond != nil {
-					if b, ok := ast.Unparen(fs.Cond).(*ast.BinaryExpr); ok && b.Op == token.LSS && prog.IdentObj(ti, b.Y) == endV && strings.HasSuffix(types.ExprString(b.X), ".Offset()") {
-						okBracket = true
+				if fs, ok := loops[0].(*ast.ForStmt); ok {
+					cond := fs.Cond
+					if cond == nil && len(fs.Body.List) > 0 {
+						// for { if cur.Offset() >= end { break } ... }
+						if is, ok := fs.Body.List[0].(*ast.IfStmt); ok && is.Else == nil && len(is.Body.List) == 1 {
+							if br, ok := is.Body.List[0].(*ast.BranchStmt); ok && br.Tok == token.BREAK {
+								cond = normNot(&ast.UnaryExpr{Op: token.NOT, X: is.Cond})
+								if u, ok := cond.(*ast.UnaryExpr); ok && u.Op == token.NOT {
+									if b, ok := ast.Unparen(u.X).(*ast.BinaryExpr); ok && b.Op == token.GEQ {
+										cond = &ast.BinaryExpr{X: b.X, Op: token.LSS, Y: b.Y}
+									}
+								}
+							}
+						}
+					}
+					if cond != nil {
+						if b, ok := ast.Unparen(cond).(*ast.BinaryExpr); ok {
+							b = orientCmp(b, func(e ast.Expr) bool { return strings.HasSuffix(types.ExprString(e), ".Offset()") })
+							if b.Op == token.LSS && prog.IdentObj(ti, b.Y) == endV && strings.HasSuffix(types.ExprString(b.X), ".Offset()") {
+								okBracket = true
+							}
+						}
 					}
 				}
 			}
